@@ -1040,11 +1040,13 @@ def register_link_roots(R):
                 linked = C.taken(x)
                 return z3.ForAll([x], z3.Implies(z3.And(C.R(x), C.root0(x)),
                                                  z3.If(linked, z3.And(C.R(sel(C.par, x)), sel(C.P1, x) == sel(C.ID, sel(C.par, x))), sel(C.P1, x) == -1)))
-            if which == "current-table-is-a-forest(root-and-depth-witness)":
-                rx = sel(C.rt, x)
-                return z3.ForAll([x], z3.Implies(C.R(x), z3.And(
-                    C.R(rx), C.cur_root(rx), sel(C.dp, x) >= 0,
-                    z3.If(C.cur_root(x), z3.And(rx == x, sel(C.dp, x) == 0), z3.And(C.R(C.P(x)), sel(C.rt, C.P(x)) == rx, sel(C.dp, x) == sel(C.dp, C.P(x)) + 1)))))
+            rx = sel(C.rt, x)
+            if which == "forest/every-row-has-a-root-row-that-is-still-a-root":
+                return z3.ForAll([x], z3.Implies(C.R(x), z3.And(C.R(rx), C.cur_root(rx), sel(C.dp, x) >= 0)))
+            if which == "forest/roots-are-their-own-root-at-depth-0":
+                return z3.ForAll([x], z3.Implies(z3.And(C.R(x), C.cur_root(x)), z3.And(rx == x, sel(C.dp, x) == 0)))
+            if which == "forest/other-rows-hang-one-level-below-their-parent-row-in-the-same-tree":
+                return z3.ForAll([x], z3.Implies(z3.And(C.R(x), z3.Not(C.cur_root(x))), z3.And(C.R(C.P(x)), sel(C.rt, C.P(x)) == rx, sel(C.dp, x) == sel(C.dp, C.P(x)) + 1)))
             if which == "labels-are-equal-exactly-within-a-tree":
                 d = labels_of(v)
                 return z3.And(d.nz() == C.n, z3.ForAll([x, y], z3.Implies(z3.And(C.R(x), C.R(y)), (sel(d.arr, x) == sel(d.arr, y)) == (sel(C.rt, x) == sel(C.rt, y)))))
@@ -1053,7 +1055,8 @@ def register_link_roots(R):
         return f
 
     INV = ["only-the-parent-column-is-written", "original-edges-kept", "roots-taken-so-far-are-linked-the-others-untouched",
-           "current-table-is-a-forest(root-and-depth-witness)", "labels-are-equal-exactly-within-a-tree"]
+           "forest/every-row-has-a-root-row-that-is-still-a-root", "forest/roots-are-their-own-root-at-depth-0",
+           "forest/other-rows-hang-one-level-below-their-parent-row-in-the-same-tree", "labels-are-equal-exactly-within-a-tree"]
 
     # ------------------------------------------------------------ ghost code: after the store of the new parent id
     def g_link(E, v):
